@@ -11,7 +11,12 @@ package sign
 //@   assert_at[C01] ResultRound "return r.ResultRound(signature)": ecdsa_valid(signature.R, signature.S, r.PublicKey, r.Message)
 //@   assert_at[C01] ResultRound "return r.ResultRound(signature)": typeis(arg1, *ecdsa.Signature) && arg1.(*ecdsa.Signature) == signature
 
-// ---- start function (C20)
+// ---- start function (C20): a session is created only for non-nil key material, a non-empty message and a signer
+// set that is duplicate-free, contains this party, has more than threshold members and only shareholders.
 //@ func StartSign$1
 //@   nopanic[C20]
-//@   ensures[C20] len(message) == 0 ==> result1 != nil
+//@   requires config != nil ==> cfgwf(config)
+//@   ensures[C20] result1 != nil ==> result0 == nil
+//@   ensures[C20] result1 == nil ==> (config != nil && len(message) > 0)
+//@   ensures[C20] result1 == nil ==> (lastresult(CanSign) && result0 != nil)
+//@   loop 1: invariant PublicKey != nil && fresh(ECDSA) && fresh(Paillier) && fresh(Pedersen)
